@@ -158,9 +158,10 @@ def check(ck):
                 kind = "dict"
                 ck.require(okk, "C15.2", "%s: `%s`" % (q.fn(fi), dump(v)[:60]), "{key: %s(value, ...) for key, value in obj.items()}" % rec_name,
                            "the dict branch returns `%s`: keys are not kept or values not passed through %s" % (dump(v)[:70], rec_name), q.loc(fi, rn))
-            elif fi is fdump and t[0] == "call" and ((t[1][0] == "item" and prov.show(t[1][1]).endswith("serialize_handlers")) or
-                                                     (t[1][0] == "call" and t[1][1][0] == "attr" and t[1][1][2] == "get" and
-                                                      prov.show(t[1][1][1]).endswith("serialize_handlers"))):
+            elif fi is fdump and t[0] == "call" and all(
+                    (a[0] == "item" and prov.show(a[1]).endswith("serialize_handlers")) or
+                    (a[0] == "call" and a[1][0] == "attr" and a[1][2] == "get" and prov.show(a[1][1]).endswith("serialize_handlers")) or
+                    a == ("const", None) for a in prov.alts(t[1])) and any(a != ("const", None) for a in prov.alts(t[1])):
                 kind = "handler"
                 ck.ok("C15.2", "%s: `%s`" % (q.fn(fi), q.stmt_text(rn)[:50]), "registered handler's result", q.loc(fi, rn))
             elif fi is fdump and isinstance(v, ast.Name) and all(a[0] == "other" and a[1].startswith("{'__jsonclass__'") for a in prov.alts(t)):
